@@ -478,7 +478,11 @@ fn gen_c07(seed: u64, idx: usize, _tier: Tier) -> C07Scenario {
     let np = rng.range(1, 4);
     let mut phases = vec![];
     let mut g = HistGen::new(&mut rng, model, dirs, prot);
-    g.big_left = if g.rng.chance(1, 6) { 1 } else { 0 };
+    g.big_left = match g.rng.below(12) {
+        0 => 1,
+        1 | 2 => 3,
+        _ => 0,
+    };
     g.links_left = if g.rng.chance(1, 8) { 1 } else { 0 };
     for _ in 0..np {
         let nd = g.rng.range(1, 8);
@@ -613,7 +617,7 @@ fn exec_c07(sc: &C07Scenario) -> Outcome {
                 GitOp::Create { path } | GitOp::Edit { path } | GitOp::EditOld { path } | GitOp::Delete { path } => {
                     edited.insert(path.clone());
                     if path.ends_with(".big") {
-                        out.fault("edit_beyond_2mib_of_a_large_file", 1);
+                        out.fault("edit_beyond_the_first_mib_of_a_large_file", 1);
                     }
                     if matches!(op, GitOp::EditOld { .. }) {
                         out.fault("edit_keeping_an_old_mtime", 1);
